@@ -12,6 +12,7 @@
 package main
 
 import (
+	"runtime"
 	"bufio"
 	"context"
 	"encoding/hex"
@@ -139,6 +140,8 @@ func (u *upIface) VarlinkDispatch(ctx context.Context, c varlink.Call, method st
 	return fmt.Errorf("done")
 }
 
+var variant string // "" | "split" (payload in later segments) | "gc" (the caller keeps only the upgraded stream)
+
 func upgradeService(dir string, idx int, frame, payload []byte, rs int) string {
 	svc, _ := varlink.NewService("v", "p", "1", "u")
 	u := &upIface{got: make(chan []byte, 1), want: len(payload), rs: rs}
@@ -155,7 +158,16 @@ func upgradeService(dir string, idx int, frame, payload []byte, rs int) string {
 		return "X dial " + err.Error()
 	}
 	msg := append(append(append([]byte{}, frame...), 0), payload...)
-	c.Write(msg) // one segment: frame, NUL and payload together
+	if variant == "split" && len(payload) > 1 {
+		// the payload arrives after the request, in two segments: the handler's raw read starts on an empty buffer
+		c.Write(msg[:len(frame)+1])
+		time.Sleep(80 * time.Millisecond)
+		c.Write(payload[:len(payload)/2])
+		time.Sleep(80 * time.Millisecond)
+		c.Write(payload[len(payload)/2:])
+	} else {
+		c.Write(msg) // one segment: frame, NUL and payload together
+	}
 	var res string
 	select {
 	case g := <-u.got:
@@ -184,7 +196,13 @@ func upgradeClient(dir string, idx int, frame, payload []byte, rs int) string {
 		r := bufio.NewReader(c)
 		r.ReadBytes(0)
 		msg := append(append(append([]byte{}, frame...), 0), payload...)
-		c.Write(msg)
+		if variant == "gc" {
+			c.Write(msg[:len(frame)+1])
+			time.Sleep(200 * time.Millisecond) // the payload follows later, when the client holds nothing but the stream
+			c.Write(payload)
+		} else {
+			c.Write(msg)
+		}
 		time.Sleep(50 * time.Millisecond)
 		c.Close()
 	}()
@@ -193,7 +211,9 @@ func upgradeClient(dir string, idx int, frame, payload []byte, rs int) string {
 	if err != nil {
 		return "X connect " + err.Error()
 	}
-	defer conn.Close()
+	if variant != "gc" {
+		defer conn.Close()
+	}
 	recv, err := conn.Upgrade(ctx, "x.y.Up", nil)
 	if err != nil {
 		return "X upgrade " + err.Error()
@@ -202,6 +222,15 @@ func upgradeClient(dir string, idx int, frame, payload []byte, rs int) string {
 	_, rw, err := recv(ctx, &out)
 	if err != nil {
 		return "X receive " + err.Error()
+	}
+	if variant == "gc" {
+		// a caller that keeps only the upgraded stream (as a Dial-style helper returning just the ReadWriterContext would): the
+		// Connection object becomes garbage; the stream must keep working
+		conn, recv = nil, nil
+		runtime.GC()
+		runtime.GC()
+		time.Sleep(20 * time.Millisecond)
+		runtime.GC()
 	}
 	var acc []byte
 	ctx2, cancel := context.WithTimeout(ctx, 3*time.Second)
@@ -242,6 +271,10 @@ func main() {
 		default:
 			f := strings.Fields(line)
 			rs, _ := strconv.Atoi(f[2])
+			variant = ""
+			if len(f) > 3 {
+				variant = f[3]
+			}
 			if mode == "upgrade-service" {
 				fmt.Fprintln(w, upgradeService(dir, idx, unhex(f[0]), unhex(f[1]), rs))
 			} else {
